@@ -33,7 +33,7 @@ TEXT = {
     "C04": dict(
         technique=_PT_TECH + "; overlapping iterators",
         text="Histories of table changes between and during pids()/pid_exists()/process_iter() (complete, partial, with attrs, overlapping generators, cache_clear): listing equality at the listing access, ascending/unique/listed yields, object identity across successive non-overlapping complete iterations, eviction, refresh after is_running() found a recycled PID, eventual coherence after overlap. Sampled.",
-        note=_PT_NOTE + " Two-thread iteration is explored by the threads engine when built; here overlap is produced with interleaved generators in one thread.", ref="DESIGN.md section 9, C04"),
+        note=_PT_NOTE + " A second leg (threads engine) runs two real threads iterating at once under the baton scheduler (safety clauses + eventual coherence).", ref="DESIGN.md section 9, C04"),
     "C05": dict(
         technique=_PT_TECH + "; arbitrary parent-link graphs",
         text="Quiescent tables with arbitrary parent links (forests, self-loops, cycles, unlisted parents, equal/inverted start times) are compared exactly with a breadth-first reference; moving tables (events inside the scan) are checked for soundness; termination is enforced by a seam-call budget; recycled callers must raise NoSuchProcess. Sampled.",
@@ -58,6 +58,11 @@ TEXT = {
         text="wait()/wait_procs() run on a virtual clock where time only moves through psutil's own sleep() calls; the exit (or reap) instant of each process is placed before the call, between/at poll instants, within the last poll interval, exactly at, just after and long after the deadline, or never; EINTR is delivered to chosen waitpid calls. The oracle reads every (virtual time, waitpid/kill/sleep/clock) record: status, not-early, cached, timeout legitimacy, one-poll-late, poll bounds, partition/callback rules. Sampled over ~2.4k distinct cells per quick run.",
         note="Trusted base: SimKernel waitpid/kill(0) semantics and the virtual clock. System calls take zero virtual time; a jitter configuration exercises overshooting sleeps with only jitter-proof clauses. No PID reuse.",
         ref="DESIGN.md section 9, C15"),
+    "C16": dict(
+        technique="deterministic simulation: seeded oneshot()/as_dict() histories with differential self-oracle on pinned kernel versions, plus real threads under a baton scheduler with line-granular bounded pre-emption",
+        text="Single-thread: seeded histories of enter / nested enter / exit / exit-by-exception / getter / as_dict / kernel-change events; a value returned inside a block must equal what the same getter returns outside any block on a view of the kernel whose source files are pinned at the versions first read in the block (or current), shared sources are opened at most once per block, the next call after exit re-reads and is current, as_dict has the exact keys / ad_value policy / early ValueError-TypeError. Threads: 2-3 real threads (one using oneshot()/as_dict(), others plain getters or their own blocks on the same object) run under a scheduler that hands a baton over at plan-chosen source lines, seam calls and lock operations (<= 4 quick / <= 8 thorough voluntary pre-emptions, biased to memoize_when_activated / cache_activate / cache_deactivate / oneshot lines); no call may raise, no deadlock, every value must be the answer for some kernel version inside the call's window. Sampled.",
+        note="Trusted base: the baton scheduler (sim/sched.py), sys.settrace line events, SimLock, SimKernel. Pre-emption is line-granular; free-threaded builds are not modelled. The differential oracle calls psutil itself on a fresh handle outside oneshot (the statement's own reference).",
+        ref="DESIGN.md section 9, C16"),
     "C03": dict(
         technique="deterministic simulation: seeded worlds + enumerated fault injection at every OS access index (fork-per-run, trace digest, ddmin-shrunk replay files)",
         text="For every seeded world, every Process query method is run once fault-free to number its OS accesses, then once per (pid-related access k) x {process vanishes, turns zombie, EACCES, EPERM} plus sampled two-fault sequences; each outcome must be a well-shaped value or NoSuchProcess/ZombieProcess/AccessDenied with the right cause and pid, and after a vanish every getter must raise NoSuchProcess. Exhaustive in (method, access, fault kind) per world, sampled over worlds: evidence, not proof.",
